@@ -11,6 +11,8 @@ Tie        : translator/gen_path.py (fail-closed golden shapes + regenerated con
                listing   LocalStorageBackend.list_files         vs list_files
                realpath  os.path.realpath (the modelled stdlib)  vs realpath
                kernel    O_PATH + /proc/self/fd (the real kernel) vs kwalk
+               entrypoints  audited OS calls of the real entry points vs run_entry (outcome class + locations)
+               rand-*    the same on random symlink arrangements (multi-link cycles, dangling, absolute/relative)
              over the exhaustive path grammar x root spelled directly / through a symlink / relatively.
 Oracle /   : implementation-only entry-point audit (harness/lib/pathaudit.py): every storage / read entry
 search       point x the grammar under sys.addaudithook; kernel-judged locations must lie under the
@@ -48,20 +50,26 @@ REQ = ["DS.Model.Path", "DS.Gen.GenPath"]
 GEN_FILES = ["GenPath.v"]
 
 MANIFEST_ENTRY = {
-    "level_text": "Coq theorems, for EVERY symlink tree, base spelling, working directory, path string and fuel: the repaired "
-                  "resolver returns only link-free locations under the canonical root (C17_resolve_inside), the kernel's own walk of "
-                  "such a location and of each of its ancestors stays on it (C17_resolve_kernel), anything resolving outside is "
-                  "Err Security and never another path (C17_reject_outside), likewise _get_arrow_path's three-way split "
-                  "(C17_arrow_inside), list_files yields only '..'-free names of files below the resolved prefix "
-                  "(C17_listing_relative), every modelled entry point touches only such locations (C17_entrypoints), "
-                  "commonpath containment is component-wise prefix (C17_commonpath_prefix), fuel = number of links suffices "
-                  "(C17_fuel_sufficient); the unrepaired resolver is refuted by a concrete tree (C17_legacy_resolver_refuted). "
-                  "Model tied to the code by golden-shape translation of the guards and by differential execution against real "
-                  "symlink trees over the exhaustive path grammar; implementation-only OS-call audit of 20 entry points",
+    "level_text": "Coq theorems, for EVERY symlink tree (loops included), base spelling, working directory, path string and fuel: "
+                  "the repaired resolver returns only link-free locations under the canonical root (C17_resolve_inside); the "
+                  "kernel's own walk of such a location and of each of its ancestors stays on it (C17_resolve_kernel); whenever the "
+                  "kernel can walk a string the modelled os.path.realpath returns exactly the kernel's location "
+                  "(C17_realpath_agrees_with_kernel), so a string the kernel resolves outside the root is Err Security "
+                  "(C17_kernel_outside_rejected, C17_reject_outside) and an answer is never some other file "
+                  "(C17_resolve_is_kernel_location); likewise _get_arrow_path's three-way split (C17_arrow_inside); list_files yields "
+                  "only '..'-free names of files below the resolved prefix (C17_listing_relative); every entry point of the table "
+                  "regenerated from the source hands the OS only its guard's result or that result's parent (C17_entrypoints); "
+                  "commonpath containment is component-wise prefix (C17_commonpath_prefix); fuel = number of links suffices "
+                  "(C17_fuel_sufficient); the resolver as found is refuted by a concrete tree (C17_legacy_resolver_refuted). Model tied "
+                  "to the code by golden-shape / taint translation of the guards and by differential execution against real symlink "
+                  "trees (resolver, arrow path, listing, realpath, kernel, entry points) over the exhaustive path grammar; "
+                  "implementation-only OS-call audit of 26 entry points searches for a failing input",
     "level_note": "trusted: Coq kernel; translator/gen_path.py; the model of posixpath.realpath/commonpath/relpath and of the kernel "
-                  "walk (validated by correspondence against CPython 3.12 and the running kernel); the audit harness; "
-                  "not modelled: time-of-check/time-of-use races, hard links, mount points, the S3 backend (C20)",
-    "technique": "Coq proof over a symlink file-system model + golden-shape translation + differential correspondence + OS-call audit",
+                  "walk (validated on every run against CPython 3.12 and the running kernel); the audit harness (sys.addaudithook sees "
+                  "Python-level OS calls only); not modelled: time-of-check/time-of-use races, hard links, mount points, the S3 "
+                  "backend (C20). Two defects found and repaired on the library branch: realpath's give-up result on a symlink loop "
+                  "trusted by the resolver (escape), and temp files staged next to the root when writing at the root itself",
+    "technique": "Coq proof over a symlink file-system model + golden-shape/taint translation + differential correspondence + OS-call audit",
     "design_ref": "DESIGN.md section 5 C17",
 }
 
